@@ -53,7 +53,7 @@ theorem keyFree_iff (s : State) (hi : Inv s) (k : Nat) (m : Entry) (hm : s.ent k
 is neither locked nor awaited, and `none` otherwise; in the `none` case no handle is left and no value changed. -/
 theorem C05_try (kind : Kind) (as : List Act) (h k h0 : Nat) :
     let s := run (State.init kind) as
-    let a : Api := { s := s, streams := [] }
+    let a : Api := { s := s, streams := [], susp := [] }
     s.hs h = none →
     (KeyFree s k → (match (a.lock .try h k .none h0).2.res with | .guard => True | _ => False) ∧
         IsGuard (a.lock .try h k .none h0).1.s h k) ∧
@@ -111,7 +111,7 @@ theorem C05_try (kind : Kind) (as : List Act) (h k h0 : Nat) :
 /-- **waiting variants**: a guard at once iff the key is neither locked nor awaited, otherwise the call is pending (queued). -/
 theorem C05_wait (kind : Kind) (as : List Act) (h k h0 : Nat) :
     let s := run (State.init kind) as
-    let a : Api := { s := s, streams := [] }
+    let a : Api := { s := s, streams := [], susp := [] }
     s.hs h = none →
     (KeyFree s k → (match (a.lock .wait h k .none h0).2.res with | .guard => True | _ => False) ∧
         IsGuard (a.lock .wait h k .none h0).1.s h k) ∧
@@ -176,8 +176,8 @@ theorem C05_refines (kind : Kind) (cs : List SCall) :
 
 /-- one call, with the resulting states related again (the induction step of `C05_refines`) -/
 theorem C05_refines_step (s : State) (sp : Spec) (hi : Inv s) (hr : Rel s sp) (c : SCall) (hpre : Pre s c) :
-    resOut (Api.exec ⟨s, []⟩ c.toCall).2.res = (specExec sp c).2 ∧
-    Rel (Api.exec ⟨s, []⟩ c.toCall).1.s (specExec sp c).1 ∧ Inv (Api.exec ⟨s, []⟩ c.toCall).1.s :=
+    resOut (Api.exec ⟨s, [], []⟩ c.toCall).2.res = (specExec sp c).2 ∧
+    Rel (Api.exec ⟨s, [], []⟩ c.toCall).1.s (specExec sp c).1 ∧ Inv (Api.exec ⟨s, [], []⟩ c.toCall).1.s :=
   refines_step s sp hi hr c hpre
 
 /-- what the abstract state says is "present": the key has a value, a guard, or a pending acquisition -/
